@@ -23,14 +23,26 @@ def gen_parent_redraw(rnd):
     depth = rnd.randint(1, 2)
     screens = [dict(id=0, name="S0", title=None, text="root", height=30, input_required=True, no_separator=False, skip_check=False,
                     scripts={"input": [{"acts": [["push_modal", 1, None]], "ret": "PROCESSED"}] + [{"ret": rnd.choice(["DISCARDED", "PROCESSED", "q"])} for _ in range(3)]})]
+    handlers = [dict(cls="U0", hid=0, data=None, scripts=[[] for _ in range(6)])]
+    sidn = [900]
+    def usig():
+        sidn[0] += 1; return ["enq", "U0", 0, None, sidn[0]]
+    if rnd.random() < 0.5:
+        # the caller queues a signal for itself just before the modal push; the modal screen closes itself and pumps the loop
+        screens[0]["scripts"]["input"][0]["acts"] = [usig(), ["push_modal", 1, None]] + ([usig()] if rnd.random() < 0.5 else [])
     for d in range(1, depth + 1):
         acts = [["redraw_sig", rnd.randrange(0, d)]] if rnd.random() < 0.7 else []
         nxt = [["push_modal", d + 1, None]] if d < depth else []
-        screens.append(dict(id=d, name="S%d" % d, title=None, text="modal %d" % d, height=30, input_required=True, no_separator=False, skip_check=False,
-                            scripts={"input": [{"acts": acts + nxt, "ret": rnd.choice(["CLOSE", "CLOSE", "q", "DISCARDED"])} for _ in range(4)]}))
-    return with_cc(dict(op="machine", mode="tame", width=80, screens=screens, handlers=[], init=[["schedule", 0, None]],
+        scripts = {"input": [{"acts": acts + nxt, "ret": rnd.choice(["CLOSE", "CLOSE", "q", "DISCARDED"])} for _ in range(4)]}
+        r = rnd.random()
+        if r < 0.25: scripts["show"] = [{"acts": [["close_sig", d], ["proc", None]]}]          # a progress-like modal: closes itself, then pumps the loop
+        elif r < 0.45 and d == depth: scripts["closed"] = [{"acts": [["push_modal", depth + 1, None]]}]   # a "save changes?" dialog shown from closed()
+        screens.append(dict(id=d, name="S%d" % d, title=None, text="modal %d" % d, height=30, input_required=True, no_separator=False, skip_check=False, scripts=scripts))
+    screens.append(dict(id=depth + 1, name="S%d" % (depth + 1), title=None, text="dialog", height=30, input_required=True, no_separator=False, skip_check=False,
+                        scripts={"input": [{"ret": "CLOSE"}] * 4}))
+    return with_cc(dict(op="machine", mode="tame", width=80, screens=screens, handlers=handlers, init=[["schedule", 0, None]],
                         stdin=[rnd.choice(["x", "c", "q", ""]) for _ in range(rnd.randint(2, 10))], quit_cb=None,
-                        quit_screen=rnd.choice([None, None, depth]) , exc_handler=False, run_empty=False, deliver_at=[]))
+                        quit_screen=None, exc_handler=True, run_empty=False, deliver_at=[]))
 
 
 def corpus():
@@ -45,6 +57,8 @@ def monitor(case, obs):
     # C05 quantifies over modal pushes and user actions; an application that calls the raw loop API (execute_new_loop / close_loop) itself is outside it
     # (hypothesis ScreenOnly of the theorems)
     if any(ev[0] == "api" and ev[1] in ("close_loop", "new_loop") for i, ev, ctx in x.events()): return None
+    v = lost_signals(case, obs)          # "nothing that was queued for it has been lost"
+    if v: return v
     calls = []      # open push_screen_modal calls: [stack at the call]
     for i, ev, ctx in x.events():
         if ctx.get("reader") or "stack" not in ctx: continue
